@@ -227,3 +227,26 @@ Proof.
   destruct (e2e_channel_pcm o L md5 Hmd p rate bps wo ch total w chunks f Hwf Hnew Hchunks Hf Hfit Hlen) as (blocks & Hd & Hc & _).
   exists f, blocks. auto.
 Qed.
+
+(* C02 for the channel front-end, hypotheses on the input only: the finished file passes the strict stream validator *)
+Theorem channel_writer_file_valid : forall o L md5, (forall l, length (md5 l) = 16%nat) ->
+  forall p rate bps wo ch total w chunks,
+  options_wf wo ->
+  channel_new p [] wo rate bps ch total = Ok w ->
+  Forall (chunk_ok (N.to_nat ch)) chunks ->
+  let all := cconcat (N.to_nat ch) chunks in
+  forallb (FlacCodec.Wf.fits bps) (concat all) = true ->
+  let m := length (hd [] all) in
+  (1 <= m)%nat -> N.of_nat m < 2 ^ 36 ->
+  match total with Some T => T = N.of_nat m | None => True end ->
+  exists f blocks,
+    channel_run (encB o L rate bps) md5 p w chunks = Ok f /\
+    FlacCodec.Spec.spec_stream (f_stream f) = Ok (conv_si (f_si f), blocks) /\
+    stack blocks (repeat [] (N.to_nat ch)) = all.
+Proof.
+  intros o L md5 Hmd p rate bps wo ch total w chunks Hwf Hnew Hchunks all Hfit m Hm Hlen Htot.
+  destruct (channel_writer_lossless o L md5 Hmd p rate bps wo ch total w chunks Hwf Hnew Hchunks Hfit Hm Hlen Htot) as (f & _ & Hrun & _ & _).
+  destruct (e2e_channel_pcm o L md5 Hmd p rate bps wo ch total w chunks f Hwf Hnew Hchunks Hrun Hfit Hlen)
+    as (blocks & _ & Hst & _ & _ & _ & _ & _ & Hspec).
+  exists f, blocks. auto.
+Qed.
